@@ -1,8 +1,8 @@
 package checks
 
 import (
-	"go/ast"
 	"fmt"
+	"go/ast"
 	"go/token"
 	"go/types"
 	"sort"
